@@ -246,18 +246,19 @@ structure Args where
   fallback : Option Str := none
 deriving DecidableEq, Repr, Inhabited
 
-/-- xls2json.py 359-387 -/
-def jsonRoot (st : Dict) (a : Args) : Dict :=
+/-- the default root dict of xls2json.py 359-385 -/
+def defaults (st : Dict) (a : Args) : Dict :=
   let formName := a.formName.getD Pyxv.Gen.defaultFormName.toList
   let dl0 := a.defaultLanguage.getD Pyxv.Gen.defaultLanguageValue.toList
   let dl := (aget (S "default_language") st).getD (.s dl0)
   let idString := (aget (S "id_string") st).getD (.s (a.fallback.getD Pyxv.Gen.defaultFormName.toList))
   let sms := (aget (S "sms_keyword") st).getD idString
-  aupdate
-    [(S "type", .s (S "survey")), (S "name", .s formName), (S "title", idString),
-     (S "id_string", idString), (S "sms_keyword", sms), (S "default_language", dl),
-     (S "children", .d [])]
-    st
+  [(S "type", .s (S "survey")), (S "name", .s formName), (S "title", idString),
+   (S "id_string", idString), (S "sms_keyword", sms), (S "default_language", dl),
+   (S "children", .d [])]
+
+/-- `json_dict.update(settings)` (xls2json.py 387) -/
+def jsonRoot (st : Dict) (a : Args) : Dict := aupdate (defaults st a) st
 
 /-- a slot whose class default is `""`: overwritten only by a truthy value -/
 def slotStr (d : Dict) (k : String) : Str :=
@@ -340,29 +341,36 @@ def setOpt (set : Setter) (k : String) (v : Option Str) (l : List (Str × Str)) 
   | some x => set k.toList x l
   | none => l
 
-/-- `Survey.xml_instance` (survey.py 714-740), parametrised by the attribute setter
-    (`domSet` = what minidom does; `aset` = a plain ordered dict) -/
+/-- `Survey.xml_instance` (survey.py 714-740) on the slot values, parametrised by the attribute
+    setter (`domSet` = what minidom does; `aset` = a plain ordered dict) -/
+def rootList (set : Setter) (attrs : List (Str × Str)) (id : Str) (x : Option Str) (ver : Str)
+    (p d : Option Str) : List (Str × Str) :=
+  let r := attrs.foldl (fun acc kv => set kv.1 kv.2 acc) []
+  let r := set (S "id") id r
+  let r := setOpt set "xmlns" x r
+  let r := if ver.isEmpty then r else set (S "version") ver r
+  let r := setOpt set "odk:prefix" p r
+  setOpt set "odk:delimiter" d r
+
 def rootAttrsWith (set : Setter) (sv : Survey) : List (Str × Str) :=
-  let r := (sv.attrib.getD []).foldl (fun acc kv => set kv.1 kv.2 acc) []
-  let r := set (S "id") sv.idString r
-  let r := setOpt set "xmlns" sv.instanceXmlns r
-  let r := if sv.version.isEmpty then r else set (S "version") sv.version r
-  let r := setOpt set "odk:prefix" sv.pfx r
-  setOpt set "odk:delimiter" sv.delimiter r
+  rootList set (sv.attrib.getD []) sv.idString sv.instanceXmlns sv.version sv.pfx sv.delimiter
 
 def rootAttrsOf (sv : Survey) : List (Str × Str) := rootAttrsWith domSet sv
 
 /-- `Survey.xml_model` (survey.py 690-704).  The five attribute names have pairwise distinct local
     names, so minidom's `setAttribute` is a plain dict assignment here. -/
-def submissionOf (sv : Survey) : Option (List (Str × Str)) :=
-  if sv.submissionUrl.isSome || sv.publicKey.isSome || sv.autoSend.isSome || sv.autoDelete.isSome then
-    let r := match sv.submissionUrl with
-      | some u => aset (S "method") (S "post") (aset (S "action") u [])
+def subList (u p s d : Option Str) : Option (List (Str × Str)) :=
+  if u.isSome || p.isSome || s.isSome || d.isSome then
+    let r := match u with
+      | some x => aset (S "method") (S "post") (aset (S "action") x [])
       | none => []
-    let r := setOpt aset "base64RsaPublicKey" sv.publicKey r
-    let r := setOpt aset "orx:auto-send" sv.autoSend r
-    some (setOpt aset "orx:auto-delete" sv.autoDelete r)
+    let r := setOpt aset "base64RsaPublicKey" p r
+    let r := setOpt aset "orx:auto-send" s r
+    some (setOpt aset "orx:auto-delete" d r)
   else none
+
+def submissionOf (sv : Survey) : Option (List (Str × Str)) :=
+  subList sv.submissionUrl sv.publicKey sv.autoSend sv.autoDelete
 
 def nsmapBase : List (Str × Str) := Pyxv.Gen.nsmap.map fun p => (p.1.toList, p.2.toList)
 
@@ -381,10 +389,11 @@ def nsExtra (ns : Str) : List (Str × Str) :=
     fun kv => (aget kv.1 nsmapBase).isNone)
 
 /-- `Survey.get_nsmap` without entities (survey.py 309-334) -/
-def nsmapOf (sv : Survey) : List (Str × Str) :=
-  match sv.namespaces with
+def nsmapOfNs : Option Str → List (Str × Str)
   | some ns => aupdate nsmapBase (nsExtra ns)
   | none => nsmapBase
+
+def nsmapOf (sv : Survey) : List (Str × Str) := nsmapOfNs sv.namespaces
 
 /-- prefixes whose `xmlns:p` attribute would collide (minidom local names) with another declaration -/
 def nsTricky (sv : Survey) : Bool :=
@@ -415,16 +424,21 @@ def instanceNameOf (st : Dict) : Option Str :=
   | some (.d _) => some []
   | none => none
 
+/-- the header of an accepted form -/
+def headerOf (st : Dict) (a : Args) : Header :=
+  let sv := surveyOf (jsonRoot st a)
+  { title := sv.title, rootName := sv.name, rootAttrs := rootAttrsOf sv,
+    submission := submissionOf sv, bodyClass := sv.style, nsmap := nsmapOf sv,
+    instanceID := !omits st, instanceName := instanceNameOf st }
+
 /-- cleaned settings dict + arguments ↦ header (or the error the code raises) -/
 def header (st : Dict) (a : Args) : M Header :=
   if omits st && truthy (aget (S "public_key") st) then .error (.err .omitWithKey) else
-  let sv := surveyOf (jsonRoot st a)
-  if sv.idString == S "None" then .error (.err .emptyId) else
-  if !Pyxv.Rows.isXmlTag sv.name then .error (.err (.badName sv.name)) else
-  if nsTricky sv then .error (.unsupported "namespace prefix `xmlns` or with a colon") else
-  .ok { title := sv.title, rootName := sv.name, rootAttrs := rootAttrsOf sv,
-        submission := submissionOf sv, bodyClass := sv.style, nsmap := nsmapOf sv,
-        instanceID := !omits st, instanceName := instanceNameOf st }
+  if (surveyOf (jsonRoot st a)).idString == S "None" then .error (.err .emptyId) else
+  if !Pyxv.Rows.isXmlTag (surveyOf (jsonRoot st a)).name then
+    .error (.err (.badName (surveyOf (jsonRoot st a)).name)) else
+  if nsTricky (surveyOf (jsonRoot st a)) then .error (.unsupported "namespace prefix `xmlns` or with a colon") else
+  .ok (headerOf st a)
 
 /-- the whole modelled path: settings header row + row 0 + arguments ↦ header.
     `sheet = none`: no settings sheet (or one without data rows). -/
